@@ -129,29 +129,34 @@ static void gen_huge(SplitMix &g, ll count) {
   for (ll it = 0; it < count; ++it) {
     int nsnk, nsrc; std::vector<ll> dems, caps; std::vector<std::vector<ll>> costs; int incr = 0;
     if (g.coin(45)) {
-      // ring of designed splits: source i sends its main share A_i to sink i (cost 0) and a remainder r_i to sink i+1 (cost 1),
-      // everything else is expensive; capacities exactly A_j + r_(j-1).  e.g. 2^32+30 split 2^32+10 / 20; a share of exactly 2^31
-      nsnk = (int)g.uni(2, 3); int extra = g.coin(60) ? 0 : 1; nsrc = nsnk + extra;   // tiny: see the remark on run time below
-      std::vector<ll> A(nsnk), r(nsnk);
-      for (int i = 0; i < nsnk; ++i) {
-        A[i] = huge_share(g);
-        int rk = (int)g.uni(0, 7);
-        r[i] = rk == 0 ? 0 : rk == 1 ? 1 : rk == 2 ? 20 : rk == 3 ? 35 : rk == 4 ? (1LL << 31) - 1 : rk == 5 ? std::min(A[i], 1LL << 31) : g.uni(1, A[i]);
+      // designed spills: 1..3 independent blocks of ONE source and 1..4 private sinks (costs 0..10 inside the block, 1000 to the
+      // other blocks' sinks, block capacity >= block demand): the source fills its sinks in cost order, nothing is ever re-routed,
+      // so the run time does not depend on the magnitudes (a 2-sink 3-source problem with a 10-unit slack next to 2^36-sized
+      // quantities takes minutes, in the C++ and in the model).  e.g. 2^32+30 split 2^32+10 / 20; a share of exactly 2^31.
+      int nb = (int)g.uni(1, 3); std::vector<int> blk_of_sink; std::vector<ll> bc;
+      nsrc = nb; dems.assign(nsrc, 0);
+      for (int b = 0; b < nb; ++b) {
+        int k = (int)g.uni(1, 4); ll A = huge_share(g); ll others = 0;
+        int mainpos = (int)g.uni(0, k - 1);
+        for (int q = 0; q < k; ++q) {
+          ll c;
+          if (q == mainpos) c = A;
+          else { int rk = (int)g.uni(0, 8); c = rk == 0 ? 5 : rk == 1 ? 7 : rk == 2 ? 20 : rk == 3 ? 35 : rk == 4 ? 1000 : rk == 5 ? (1LL << 31) - 1 : rk == 6 ? (1LL << 31) : rk == 7 ? A : g.uni(1, A); others += c; }
+          blk_of_sink.push_back(b); bc.push_back(c);
+        }
+        int dk = (int)g.uni(0, 6);
+        ll d = dk == 0 ? A : dk == 1 ? A + std::min<ll>(others, 3) : dk == 2 ? A + std::min<ll>(others, 20) : dk == 3 ? A + others : dk == 4 ? A - 1 : A + g.uni(0, others);
+        dems[b] = std::max<ll>(1, d);
       }
-      dems.assign(nsrc, 0); caps.assign(nsnk, 0); costs.assign(nsnk, std::vector<ll>(nsrc));
-      for (int i = 0; i < nsnk; ++i) dems[i] = A[i] + r[i];
-      int rot = (int)g.uni(0, nsnk - 1);   // which sink is the main one: not always the one with the same index
-      for (int i = 0; i < nsnk; ++i) for (int j = 0; j < nsnk; ++j) costs[j][i] = 50 + g.uni(0, 50);
-      for (int i = 0; i < nsnk; ++i) {
-        int m = (i + rot) % nsnk, s = (i + rot + 1) % nsnk; costs[m][i] = 0; costs[s][i] = 1;
-        caps[m] += A[i]; caps[s] += r[i];
+      nsnk = (int)bc.size();
+      // shuffle the sinks: the main sink is not always the first / last
+      std::vector<int> perm(nsnk); for (int j = 0; j < nsnk; ++j) perm[j] = j;
+      for (int j = nsnk - 1; j > 0; --j) std::swap(perm[j], perm[g.uni(0, j)]);
+      caps.assign(nsnk, 0); costs.assign(nsnk, std::vector<ll>(nsrc));
+      for (int j = 0; j < nsnk; ++j) {
+        caps[j] = bc[perm[j]];
+        for (int i = 0; i < nsrc; ++i) costs[j][i] = blk_of_sink[perm[j]] == i ? g.uni(0, 10) : 1000;
       }
-      for (int i = nsnk; i < nsrc; ++i) {   // extra sources with random costs; their demand is added to random sinks
-        dems[i] = g.coin(50) ? huge_share(g) : g.uni(1LL << 30, 1LL << 33);
-        for (int j = 0; j < nsnk; ++j) costs[j][i] = g.uni(0, 60);
-        ll left = dems[i]; while (left > 0) { ll a = g.coin(50) ? left : g.uni(1, left); caps[g.uni(0, nsnk - 1)] += a; left -= a; }
-      }
-      if (g.coin(25)) caps[g.uni(0, nsnk - 1)] += g.uni(1, 1LL << 32);   // some slack
     } else {
       // a small problem (quantities in units, max demand / min capacity <= 250 as in gen_rand) scaled by a granule G: the solver
       // moves min-allocation units per iteration along its paths, so quantities that differ by a few units next to 2^31-sized ones
